@@ -32,6 +32,21 @@ type Env struct {
 // are forwarded verbatim) and opens a client session as a read-write user.
 // handler may be nil.
 func Open(prefix string, handler func(c *fakemysql.Conn, sql string) fakemysql.Reply) (*Env, error) {
+	return OpenWith(Options{Prefix: prefix, Handler: handler})
+}
+
+// Options of OpenWith.
+type Options struct {
+	Prefix  string
+	Handler func(c *fakemysql.Conn, sql string) fakemysql.Reply
+	// MultiStatements: the namespace supports multi-query and the client announces
+	// CLIENT_MULTI_STATEMENTS, so every statement text passes the statement splitter.
+	MultiStatements bool
+}
+
+// OpenWith is Open with options.
+func OpenWith(opt Options) (*Env, error) {
+	prefix, handler := opt.Prefix, opt.Handler
 	p, err := proxyfix.Shared()
 	if err != nil {
 		return nil, fmt.Errorf("proxy: %v", err)
@@ -47,11 +62,16 @@ func Open(prefix string, handler func(c *fakemysql.Conn, sql string) fakemysql.R
 	m.Handler = handler
 	e := &Env{Proxy: p, Cl: cl, Master: m, NS: proxyfix.UniqueName(prefix+"ns", n), User: proxyfix.UniqueName(prefix+"u", n)}
 	ns := proxyfix.BaseNamespace(e.NS, cl.SliceConfigs(specs), []*models.User{{UserName: e.User, Password: "pw", RWFlag: 2, RWSplit: 0}})
+	ns.SupportMultiQuery = opt.MultiStatements
 	if err := p.Install(ns); err != nil {
 		cl.Close()
 		return nil, fmt.Errorf("install: %v", err)
 	}
-	c, err := p.Dial(e.User, "pw", "db", 0)
+	caps := uint32(0)
+	if opt.MultiStatements {
+		caps = rawclient.ClientMultiStatements
+	}
+	c, err := p.Dial(e.User, "pw", "db", caps)
 	if err != nil {
 		p.Remove(e.NS)
 		cl.Close()
